@@ -10,7 +10,7 @@ for pid in ids:
     if not os.path.exists(p):
         continue
     c = json.load(open(p))
-    if c.get("disabled"):
+    if c.get("disabled") or pid not in open(os.path.join(ROOT, "props", "claimed.txt")).read().split():
         continue
     claimed.add(pid)
     checks.append({
